@@ -266,6 +266,80 @@ def check_runmax(case, ctx):
     ctx.nontrivial(r.strict)
 
 
+
+# --------------------------------------------------------------------------------------------
+# D. the same structure through the pricing modules bound to a simulated derivative
+# --------------------------------------------------------------------------------------------
+@st.composite
+def module_case(draw):
+    return {"K": draw(st.sampled_from([1.0, 1.0, 0.9, 1.1, 1.25])), "sigma": draw(st.sampled_from([0.2, 0.4, 0.1])),
+            "steps": draw(st.integers(2, 8)), "n_paths": draw(st.integers(1, 4)), "seed": draw(st.integers(0, 2 ** 31 - 1)),
+            "dt": draw(st.sampled_from([1 / 250, 1 / 52, 1 / 12])), "lift": draw(st.sampled_from([0.0, 0.0, 0.0625, 0.5])),
+            "given": draw(st.sampled_from(["none", "max", "max", "vol", "ttm"]))}
+
+
+def check_modules(case, ctx):
+    """Relations between the prices quoted by modules built from derivatives on ONE simulated underlier; the caller may supply the
+    running maximum (a barrier already reached before the simulated window), the volatility or the time to maturity."""
+    import pfhedge.instruments as I
+    from pfhedge.nn import BlackScholes
+
+    K = case["K"]
+    ul = I.BrownianStock(sigma=case["sigma"], dt=case["dt"], dtype=DT)
+    M = case["steps"] * case["dt"]
+    ders = {"C": I.EuropeanOption(ul, strike=K, maturity=M), "P": I.EuropeanOption(ul, call=False, strike=K, maturity=M),
+            "BC": I.EuropeanBinaryOption(ul, strike=K, maturity=M), "BP": I.EuropeanBinaryOption(ul, call=False, strike=K, maturity=M),
+            "AB": I.AmericanBinaryOption(ul, strike=K, maturity=M), "L": I.LookbackOption(ul, strike=K, maturity=M)}
+    torch.manual_seed(case["seed"])
+    with ctx.sut("C09/module/simulate"):
+        ders["C"].simulate(n_paths=case["n_paths"])
+    spot = ul.spot[:, :-1]  # open domain: time to maturity > 0
+    logm = (spot / K).log()
+    run = ders["L"].max_log_moneyness()[:, :-1]
+    kw, kw_max = {}, {}
+    if case["given"] == "vol":
+        kw["volatility"] = torch.full_like(spot, 0.3)
+    elif case["given"] == "ttm":
+        kw["time_to_maturity"] = ders["C"].time_to_maturity()[:, :-1] + 0.25
+    elif case["given"] == "max":
+        # the barrier was reached before the window: every running maximum is at or above the strike
+        run = torch.maximum(run, torch.zeros_like(run)) + case["lift"]
+        kw_max["max_log_moneyness"] = run
+    pr = {}
+    with ctx.sut("C09/module/price"):
+        for k, d in ders.items():
+            mod = BlackScholes(d)
+            extra = dict(kw)
+            if k in ("AB", "L"):
+                extra.update(kw_max)
+            full = mod.price(**extra) if not extra else mod.price(**{a: _pad(x) for a, x in extra.items()})
+            pr[k] = full[:, :-1]
+    if not ctx.check(all(bool(torch.isfinite(x).all()) for x in pr.values()), "C09/finite", "non-finite module price inside the open domain"):
+        return
+    sc = torch.maximum(spot, K * run.exp()).clamp(min=K)
+    tol = REL * sc
+    where = {"K": K, "given": case["given"]}
+
+    def holds(name, cond, what):
+        ctx.check(bool(cond.all()), "C09/module/" + name, what + f" (modules bound to one simulated underlier, {where})")
+
+    holds("put-call-parity", ((pr["C"] - pr["P"]) - (spot - K)).abs() <= tol, "call - put != spot - strike")
+    holds("binary-sum", (pr["BC"] + pr["BP"] - 1.0).abs() <= REL, "binary call + binary put != 1")
+    holds("call-bounds", (pr["C"] >= (spot - K).clamp(min=0) - tol) & (pr["C"] <= spot + tol), "call outside [intrinsic, spot]")
+    holds("lookback-vs-call", pr["L"] >= pr["C"] - tol, "lookback call below the European call")
+    holds("lookback-locked-in", pr["L"] >= (K * run.exp() - K).clamp(min=0) - tol, "lookback call below its locked-in payoff")
+    holds("american-vs-european-binary", pr["AB"] >= pr["BC"] - REL, "American binary below the European binary")
+    hit = run >= 0
+    holds("american-binary-hit", (pr["AB"][hit] - 1.0).abs() <= REL, "American binary != 1 although the running maximum has reached the strike")
+    ctx.nontrivial(bool(hit.any()) and bool((logm[hit] < 0).any()))
+    ctx.cls("given:" + case["given"], "hit:" + str(bool(hit.any())))
+
+
+def _pad(x):
+    """Caller-supplied arguments cover the whole grid: repeat the last column for the maturity date."""
+    return torch.cat([x, x[:, -1:]], dim=1)
+
+
 from . import _batch  # noqa: E402
 
 
@@ -292,6 +366,12 @@ SUBS = [
              "above the strike), and touch cases spot = K e^-d with M_run in [spot, K) (American binary -> 1 at the rate of d). "
              "Non-trivial: some relation strict.",
         strategy=lambda tier: runmax_case(), examples={"quick": 6000, "thorough": 150000}),
+    Sub("modules", check_modules,
+        rule="pricing modules (BlackScholes(derivative)) of the six contracts on ONE simulated Brownian underlier (2..8 steps, 1..4 paths, "
+             "3 strikes), priced from the derivative's state or with one argument supplied by the caller (volatility, time to maturity, or a "
+             "running maximum lifted to / above the strike): parity, binary sum, call bounds, lookback >= call and >= locked-in payoff, "
+             "American >= European binary and = 1 where the running maximum has reached the strike. Non-trivial: a hit barrier with the spot below the strike.",
+        strategy=lambda tier: module_case(), examples={"quick": 800, "thorough": 8000}),
     Sub("price_surface", lambda case, ctx: _batch.check_batch(case, ctx, _batch.PRICES, "C09", skip=_boundary),
         rule="price surfaces: 2..7 points per call, points of the open domain next to points at maturity / zero volatility (as on the time grid "
              "of a simulated path), exact at-the-money points, hit and not-hit barriers: the price at every OPEN-DOMAIN element must be the "
